@@ -39,6 +39,15 @@ def main():
         frames = traceback.extract_tb(e.__traceback__)
         repo = os.path.realpath(core.REPO) + os.sep
         through_repo = [f for f in frames if os.path.realpath(f.filename).startswith(repo)]
+        in_translator = [f for f in frames if os.path.basename(f.filename).startswith("gen_") and os.path.dirname(os.path.realpath(f.filename)) == HERE]
+        if in_translator and not through_repo and not a.replay:
+            # a translator (gen_*.py) could not read what the source / data files say now: a broken proof obligation
+            f = in_translator[-1]
+            ctx.obligation("translator %s:%s" % (os.path.basename(f.filename), f.name), "translator", False, "%s: %s" % (type(e).__name__, e))
+            try:
+                return ctx.finish(getattr(mod, "search", None))
+            except Exception:
+                traceback.print_exc()
         if through_repo and not a.replay:
             f = through_repo[-1]
             ctx.corr_break(
@@ -47,6 +56,14 @@ def main():
                 "the interfaces the correspondence is tied to (signatures, row keys, statistics keys)",
                 "%s: %s" % (type(e).__name__, e),
             )
+            try:
+                return ctx.finish(getattr(mod, "search", None))
+            except Exception:
+                traceback.print_exc()
+        if (ctx.breaks or ctx.violations) and not a.replay:
+            # the harness stumbled AFTER a proof obligation / the correspondence had already broken or a violation had been
+            # recorded (typically: it indexes into results that are no longer there): decide on what was established
+            ctx.notes.append("harness exception after a recorded break: %s: %s" % (type(e).__name__, e))
             try:
                 return ctx.finish(getattr(mod, "search", None))
             except Exception:
